@@ -2,6 +2,7 @@
    are mapped to the OCaml types; Z / positive / nat stay the extracted inductives). *)
 Require Extraction.
 Require Import ExtrOcamlBasic.
-From Amc Require Import GenPrelude Words VecModel.
+From Amc Require Import GenPrelude Words VecModel SetModel.
 Extraction Language OCaml.
 Extraction "../harness/ocaml/gen/vecmodel.ml" VecModel.step VecModel.describe VecModel.init_pool VecModel.mk_wrap.
+Extraction "../harness/ocaml/gen/setmodel.ml" SetModel.sstep SetModel.sdescribe SetModel.sinit SetModel.cmp_of.
